@@ -44,8 +44,16 @@ func VerifC16Frontend() {
 	// forward declarations, some of which never get a definition
 	names := []string{"foo", "bar", "baz"}
 	defined := []bool{rt.Bool("defined"), rt.Bool("defined"), rt.Bool("defined")}
+	oneLine := rt.Bool("one line") // all forward declarations on one source line
 	for _, n := range names {
-		sb.WriteString("Die Funktion " + n + " mit dem Parameter a vom Typ Zahl, gibt eine Zahl zurück,\nwird später definiert\nund kann so benutzt werden:\n\t\"" + n + " <a>\"\n\n")
+		if oneLine {
+			sb.WriteString("Die Funktion " + n + " mit dem Parameter a vom Typ Zahl, gibt eine Zahl zurück, wird später definiert und kann so benutzt werden: \"" + n + " <a>\" ")
+		} else {
+			sb.WriteString("Die Funktion " + n + " mit dem Parameter a vom Typ Zahl, gibt eine Zahl zurück,\nwird später definiert\nund kann so benutzt werden:\n\t\"" + n + " <a>\"\n\n")
+		}
+	}
+	if oneLine {
+		sb.WriteString("\n\n")
 	}
 	switch rt.Choose("extra", 4) {
 	case 0:
